@@ -749,9 +749,16 @@ def run_execution(case: dict, *, max_invocations: int | None = None, hooks: dict
             boto.clock = run.clock
             handler = durable_execution(interp.handler, boto3_client=boto)
             lam = LambdaCtx()
-            rec = {"inv": inv, "t0": backend.now, "n_hist": len(event["InitialExecutionState"]["Operations"])}
+            rec = {"inv": inv, "t0": backend.now, "n_hist": len(event["InitialExecutionState"]["Operations"]), "auto0": backend.auto_changes}
             run.invocations.append(rec)
             run.active_user = {}
+            snap: dict = {}
+
+            def on_root_done(s_, snap=snap):
+                snap["active"] = [dict(v) for v in run.active_user.values()]
+                snap["live"] = [t.name for t in s_.tasks if t.state != "done"]
+
+            sched.on_root_done = on_root_done
             sched.run(lambda: handler(event, lam), watchdog_s=case.get("watchdog_s", 150.0))
             backend.now = max(backend.now, sched.now)
             rec.update({"sched": sched.outcome, "steps": sched.step, "t1": backend.now, "trace": list(sched.trace), "api_calls": boto.n,
@@ -759,7 +766,8 @@ def run_execution(case: dict, *, max_invocations: int | None = None, hooks: dict
                         "deadlock_info": sched.deadlock_info, "switches": sched.switches, "abort_dump": sched.abort_dump,
                         "task_excs": [(t.name, type(t.exc).__name__, str(t.exc)[:200]) for t in sched.tasks if t.exc is not None and t is not sched.root],
                         "live_after_return": [t.name for t in sched.tasks if getattr(t, "_live_at_root_end", False)]})
-            rec["active_user_at_end"] = [dict(v) for v in run.active_user.values()]
+            rec["active_user_at_end"] = snap.get("active", [])
+            rec["live_at_return"] = snap.get("live", [])
             if sched.outcome in ("deadlock", "time_cap", "step_cap"):
                 rec["outcome"] = sched.outcome
                 if sched.outcome != "step_cap":
@@ -802,8 +810,10 @@ def run_execution(case: dict, *, max_invocations: int | None = None, hooks: dict
                         _deliver(backend, op, e)
                         delivered_ext.add(key)
                         progressed = True
-                if not progressed and backend.version > boto.last_version:
-                    progressed = True  # something completed after the SDK's last look: the service re-invokes at once
+                if not progressed and (backend.version > boto.last_version or backend.auto_changes > rec["auto0"]):
+                    # a timer fired / an external party answered while the invocation was running (or after the
+                    # SDK's last look): the service re-invokes at once
+                    progressed = True
                 if not progressed and backend.next_timer() is None:
                     # only external parties can move the execution on: time passes until one of them answers
                     outs = [op for op in backend.outstanding_external() if op["Id"] not in delivered_ext]
